@@ -72,6 +72,9 @@ class CSSParser:
         init parameter ``raiseExceptions``
         """
         if parse:
+            # hand back what the caller has set by now, not what
+            # was set when this parser was created
+            self.__globalRaising = cssutils.log.raiseExceptions
             cssutils.log.raiseExceptions = self.__parseRaising
         else:
             cssutils.log.raiseExceptions = self.__globalRaising
